@@ -14,6 +14,7 @@ import (
 	"github.com/scrapli/scrapligo/driver/network"
 	"github.com/scrapli/scrapligo/driver/options"
 	"github.com/scrapli/scrapligo/platform"
+	"github.com/scrapli/scrapligo/util"
 	"gopkg.in/yaml.v3"
 
 	"verif/harness/sim"
@@ -40,6 +41,10 @@ type c17Case struct {
 	Pairs   [][]string `json:"pairs"`   // (a, b): acquire a, then b
 	Segs    []int      `json:"segs"`
 	DefSeg  int        `json:"default_seg"`
+	// UserDefault: a user option WithDefaultDesiredPriv(level) layered on the definition: the
+	// definition's own on-open / on-close steps (acquire-priv without target, send-command) must
+	// then work at THAT level
+	UserDefault string `json:"user_default,omitempty"`
 }
 
 type y17Level struct {
@@ -173,6 +178,18 @@ func runC17(seed uint64, n int, tier string) {
 				cases = append(cases, &c17Case{Name: name, Variant: v})
 			}
 		}
+		// a user's default desired level layered on the definition: two levels other than the definition's
+		if err == nil && def.Default != nil && len(lv) > 1 {
+			n := 0
+			for _, u := range lv {
+				l := def.Default.Levels[u]
+				if u == def.Default.DefaultLevel || n >= 2 || l == nil || (l.PreviousPriv != "" && l.Escalate == "") || l.EscalateAuth {
+					continue
+				}
+				n++
+				cases = append(cases, &c17Case{Name: name, UserDefault: u, Start: lv[r.Intn(len(lv))], DefSeg: 0})
+			}
+		}
 	}
 	nreal := len(cases)
 	parallel(nreal+32, func(i int) {
@@ -238,10 +255,14 @@ func runC17Case(id string, c *c17Case) {
 	_ = uo
 	userOpts := []func(interface{}) error{}
 	_ = userOpts
+	popts := []util.Option{options.WithCustomTransport(tr), options.WithReadDelay(20 * time.Microsecond), options.WithTimeoutOps(400 * time.Millisecond)}
+	if c.UserDefault != "" {
+		popts = append(popts, options.WithDefaultDesiredPriv(c.UserDefault))
+	}
 	if c.Variant == "" {
-		p, err = platform.NewPlatform(c.Name, "sim", options.WithCustomTransport(tr), options.WithReadDelay(20*time.Microsecond), options.WithTimeoutOps(400*time.Millisecond))
+		p, err = platform.NewPlatform(c.Name, "sim", popts...)
 	} else {
-		p, err = platform.NewPlatformVariant(c.Name, c.Variant, "sim", options.WithCustomTransport(tr), options.WithReadDelay(20*time.Microsecond), options.WithTimeoutOps(400*time.Millisecond))
+		p, err = platform.NewPlatformVariant(c.Name, c.Variant, "sim", popts...)
 	}
 	if err != nil {
 		cs.Obs = "load-error"
@@ -339,10 +360,14 @@ func runC17Case(id string, c *c17Case) {
 	c17Levels = pdef.Levels
 	c17mu.Unlock()
 	dev.Mode = c.Start
+	effDefault := pdef.DefaultLevel
+	if c.UserDefault != "" {
+		effDefault = c.UserDefault
+	}
 	var calls, outs []string
 	// ---- open: generic on-open then network on-open
-	oc1, ol1 := onxCalls(pdef.OnOpen, pdef.DefaultLevel)
-	oc2, ol2 := onxCalls(pdef.NetworkOnOpen, pdef.DefaultLevel)
+	oc1, ol1 := onxCalls(pdef.OnOpen, effDefault)
+	oc2, ol2 := onxCalls(pdef.NetworkOnOpen, effDefault)
 	calls = append(append(calls, oc1...), oc2...)
 	tr.Mark('C')
 	t0 := time.Now()
@@ -371,12 +396,66 @@ func runC17Case(id string, c *c17Case) {
 		var want []string
 		for _, w := range openLines {
 			if strings.HasPrefix(w, "c:") {
-				want = append(want, pdef.DefaultLevel+"|"+w[2:])
+				want = append(want, effDefault+"|"+w[2:])
 			}
 		}
-		if strings.Join(got, ";") != strings.Join(want, ";") && !sameGroup(prompts, dev.Mode, pdef.DefaultLevel) {
+		if strings.Join(got, ";") != strings.Join(want, ";") && !sameGroup(prompts, dev.Mode, effDefault) {
 			cs.Oracle = fmt.Sprintf("on-open commands seen by the device: %v, want %v", got, want)
 			cs.Sig = "C17:on-open"
+		}
+	}
+	// the levels visited while opening lie on the tree path from the start level to the level in force
+	if openErr == nil && cs.Oracle == "" {
+		anc := func(n string) []string {
+			var r []string
+			for k := 0; n != "" && k < 20; k++ {
+				r = append(r, n)
+				if l := pdef.Levels[n]; l != nil {
+					n = l.PreviousPriv
+				} else {
+					n = ""
+				}
+			}
+			return r
+		}
+		onPath := map[string]bool{}
+		a, b := anc(c.Start), anc(effDefault)
+		inB := map[string]bool{}
+		for _, x := range b {
+			inB[x] = true
+		}
+		lca := ""
+		for _, x := range a {
+			onPath[x] = true
+			if inB[x] {
+				lca = x
+				break
+			}
+		}
+		for _, x := range b {
+			onPath[x] = true
+			if x == lca {
+				break
+			}
+		}
+		ok := func(m string) bool {
+			for x := range onPath {
+				if x == m || sameGroup(prompts, m, x) {
+					return true
+				}
+			}
+			return false
+		}
+		for _, l := range dev.CommandLines() {
+			if !ok(l.Mode) {
+				cs.Oracle = fmt.Sprintf("while opening (start %s, level in force %s) the device was taken through level %s (line %q)", c.Start, effDefault, l.Mode, l.Line)
+				cs.Sig = "C17:open-detour"
+				break
+			}
+		}
+		if cs.Oracle == "" && !ok(dev.Mode) {
+			cs.Oracle = fmt.Sprintf("after Open (start %s, level in force %s) the device is at level %s", c.Start, effDefault, dev.Mode)
+			cs.Sig = "C17:open-level"
 		}
 	}
 	// ---- every level from every other
@@ -416,8 +495,8 @@ func runC17Case(id string, c *c17Case) {
 		}
 	}
 	// ---- close: network on-close then generic on-close
-	cc1, _ := onxCalls(pdef.NetworkOnClose, pdef.DefaultLevel)
-	cc2, _ := onxCalls(pdef.OnClose, pdef.DefaultLevel)
+	cc1, _ := onxCalls(pdef.NetworkOnClose, effDefault)
+	cc2, _ := onxCalls(pdef.OnClose, effDefault)
 	nlog := len(dev.Log)
 	if openErr == nil {
 		tr.Mark('C')
@@ -457,7 +536,7 @@ func runC17Case(id string, c *c17Case) {
 	for _, w := range writes {
 		wl = append(wl, append([]byte("p"), w...))
 	}
-	cs.Line = fmt.Sprintf("net 1000 %s %s %s %s %s %s %s", hx([]byte("\n")), hx(tr.StartBytes()), hx([]byte(pdef.DefaultLevel)), hx(nil),
+	cs.Line = fmt.Sprintf("net 1000 %s %s %s %s %s %s %s", hx([]byte("\n")), hx(tr.StartBytes()), hx([]byte(effDefault)), hx(nil),
 		hxStrs(specs), hxStrs(calls), logStr)
 	cs.Obs = fmt.Sprintf("%s sync %s %s", strings.Join(outs, ","), hxList(wl), hx([]byte(d.CurrentPriv)))
 	_ = network.Driver{}
